@@ -131,6 +131,21 @@ Theorem C16_rejected_submission_inert : forall verifies st n p sub acc ok g fee 
 Proof. exact rejected_submission_inert. Qed.
 Print Assumptions C16_rejected_submission_inert.
 
+(* the fee-less route (submission carried by an ICA host packet): a failed one changes nothing at all, a successful one
+   costs the interchain account exactly COST, burnt *)
+Theorem C16_rejected_ica_submission_inert : forall verifies st sub acc ok g,
+  snd (step verifies st (OIcaSubmit sub acc ok g)) <> RSubmit SOk -> fst (step verifies st (OIcaSubmit sub acc ok g)) = st.
+Proof. exact rejected_ica_submission_inert. Qed.
+Print Assumptions C16_rejected_ica_submission_inert.
+
+Theorem C16_ica_submission_cost : forall verifies st sub acc ok g,
+  snd (step verifies st (OIcaSubmit sub acc ok g)) = RSubmit SOk ->
+  let st' := fst (step verifies st (OIcaSubmit sub acc ok g)) in
+  bal st' sub = bal st sub - COST /\ (forall x, x <> sub -> bal st' x = bal st x) /\ supply st' = supply st - COST /\
+  proofs st' acc = Some g /\ proofs st acc = None /\ verifies acc (s_bytes g) = true /\ COST <= bal st sub.
+Proof. exact ica_submission_cost. Qed.
+Print Assumptions C16_ica_submission_cost.
+
 (* ---- non-vacuity *)
 Definition good : sigstr := {| s_str := 1; s_bytes := 1; s_prefix := true; s_hex_ok := true; s_lower := true |}.
 Definition upper : sigstr := {| s_str := 2; s_bytes := 1; s_prefix := true; s_hex_ok := true; s_lower := false |}.
@@ -164,7 +179,9 @@ Example C16_example_vesting :
   vested (fst (vesting_tx proven None (fun _ => None) (vest_sh [MVesting VCreate 5%N]))) 5%N = true /\
   snd (vesting_tx proven None (fun _ => None) (vest_sh [MOther 0; MVesting VPeriodic 6%N])) = VAnteRej /\
   snd (vesting_tx proven None (fun _ => None) (vest_sh [MExec [MVesting VCreate 5%N]])) = VAnteRej /\
-  snd (vesting_tx proven None (fun _ => None) (vest_sh [MVesting VCreate 5%N; MVesting VPermanent 5%N])) = VExecFail.
+  snd (vesting_tx proven None (fun _ => None) (vest_sh [MVesting VCreate 5%N; MVesting VPermanent 5%N])) = VExecFail /\
+  accepted default_disabled MCheck (env_at proven None (fun _ => None)) (vest_sh [MOther 1; MVesting VCreate 5%N]) = true /\
+  accepted default_disabled MReCheck (env_at rich None (fun _ => None)) (vest_sh [MOther 1; MVesting VCreate 5%N]) = false.
 Proof. vm_compute. repeat split; reflexivity. Qed.
 
 (* the hypotheses of C16_vesting_needs_proof_partial are met by a history that does create a vesting account *)
